@@ -34,6 +34,11 @@ def dense_family():
         out.append(("dense.c", h + ch + func))
         out.append(("dense.c", h + func + ch))
         out.append(("dense.c", h + func.replace("\treturn", "\t" + ch + "return")))
+    # Notices of both origins (rule engine: a global; lexer: an unknown escape, a \\x without digits) interleaved with
+    # Errors, in both source orders
+    out.append(("dense.c", h + "int\tg_first;\n\nchar\t*ft_msg(void)\n{\n\treturn (\"50\\% done \\x\"); \n}\n\nint\tg_late;\n"))
+    out.append(("dense.c", h + "char\t*g_s = \"a\\qb\";\nint\tg_first;\n\nint\tmain(void)\n{\n\treturn(0);\n}\n"))
+    out.append(("dense.h", hh_() + "#ifndef DENSE_H\n# define DENSE_H\n\n# define MSG \"100\\%\"\n\nextern int\tg_count; \nextern char\t*g_name;\n\n#endif\n"))
     # line splices right after an unterminated literal / at the end of a line that is followed by an empty line, with
     # a diagnostic on the last line of the file: a line counter that runs ahead shows as a position past the file
     hh = header42.header_text("dense.h") + "\n"
@@ -49,6 +54,10 @@ def dense_family():
         out.append(("dense.h", header42.header_text("dense.h") + "\n/* p" + ch + "q */\n#ifndef DENSE_H\n# define DENSE_H\n\n# define S \"a" + ch
                     + "b\"\n// " + "y" * 90 + "\n\n#endif\n"))
     return out
+
+
+def hh_():
+    return header42.header_text("dense.h") + "\n"
 
 
 def check_file(task):
